@@ -30,6 +30,7 @@ PROPS['C02'] = dict(
     level='model_checking',
     design=[
         D('RouterHandler', 'MCRouterHandler.cfg', coverage=True),
+        D('RouterHandler', 'MCRouterHandler_3.cfg', tier='thorough', workers=8, heap='12g'),   # three messages in flight: 2.7 M states
         D('RouterHandler', 'MCRouterHandler_mut_ackfirst.cfg', expect='fail'),
         D('RouterHandler', 'MCRouterHandler_mut_pubonerr.cfg', expect='fail', violates='NoPublishAfterError'),
         D('RouterHandler', 'MCRouterHandler_mut_nonack.cfg', expect='fail'),
